@@ -876,7 +876,7 @@ func evalActionDelete(node *ActionExpression, env *Environment) Object {
 		}
 
 		if obj == UNDEFINED {
-			env.Set(id.Value, val)
+			// deleting from an attribute that does not exist has no effect
 			return obj
 		}
 
